@@ -119,3 +119,31 @@ Proof.
   destruct (A8 (or_introl current_is_repaired)) as [B1 [B2 B3]].
   exists a, tr. unfold c_map_mutations. repeat split; assumption.
 Qed.
+
+(* the proposed F14 guard only ever turns a result into a rejection *)
+Lemma guarded_ok core ta g anc r : guarded core ta g anc = Ok r -> core ta g anc = Ok r.
+Proof.
+  unfold guarded. destruct c20_rejects_unvisited_samples; [|auto].
+  destruct (core ta g anc) as [r'| | |]; try discriminate.
+  destruct (all_samples_visited ta) as [[|]| | |]; cbn [bind]; try discriminate. auto.
+Qed.
+
+Lemma guarded_off core ta g anc : c20_rejects_unvisited_samples = false -> guarded core ta g anc = core ta g anc.
+Proof. unfold guarded. intros ->. reflexivity. Qed.
+
+Lemma guarded_pass core ta g anc : all_samples_visited ta = Ok true -> guarded core ta g anc = core ta g anc.
+Proof.
+  unfold guarded. intros H. destruct c20_rejects_unvisited_samples; [|reflexivity].
+  destruct (core ta g anc); try reflexivity. rewrite H. reflexivity.
+Qed.
+
+Lemma guarded_only_rejects_lemma :
+  forall (core : tree_arrays -> list Z -> option Z -> res (Z * list trans))
+         (ta : tree_arrays) (g : list Z) (anc : option Z) (r : Z * list trans),
+  (guarded core ta g anc = Ok r -> core ta g anc = Ok r) /\
+  (c20_rejects_unvisited_samples = false -> guarded core ta g anc = core ta g anc) /\
+  (all_samples_visited ta = Ok true -> guarded core ta g anc = core ta g anc).
+Proof.
+  intros core ta g anc r.
+  exact (conj (guarded_ok core ta g anc r) (conj (guarded_off core ta g anc) (guarded_pass core ta g anc))).
+Qed.
